@@ -64,7 +64,17 @@ type Fn func(int) int
 type Ints []int
 type Dict map[string]int
 
+// twins: different named types with the same underlying types
+type Thunk2 func() (int, error)
+type Fn2 func(int) int
+type Ints2 []int
+type Dict2 map[string]int
+
 var (
+	nfe2 Thunk2
+	nf12 Fn2
+	nsl2 Ints2
+	nm2  Dict2
 	nfe  Thunk
 	nf1  Fn
 	nsl  Ints
@@ -153,6 +163,41 @@ func c09Programs(tier string) []c09prog {
 			})
 		}
 	}
+	// 1b. two calls in one package whose arguments are of different named types with one
+	// underlying type (each call under a name of its own)
+	twin := map[string]string{"nfe": "nfe2", "nf1": "nf12", "nsl": "nsl2", "nm": "nm2"}
+	for _, pl := range c09Plugins {
+		for _, t := range tuples {
+			if len(t) == 0 || len(t) > 2 {
+				continue
+			}
+			var ts, t2 []string
+			any := false
+			for _, a := range t {
+				ts = append(ts, typeOf[a])
+				if b, ok := twin[a]; ok {
+					t2 = append(t2, b)
+					any = true
+				} else {
+					t2 = append(t2, a)
+				}
+			}
+			for _, a := range t {
+				if strings.HasPrefix(typeOf[a], "untyped") {
+					any = false // untyped arguments are section 1's matter (recorded finding)
+				}
+			}
+			if !any {
+				continue
+			}
+			callA := pl.prefix + "A(" + strings.Join(t, ", ") + ")"
+			callB := pl.prefix + "B(" + strings.Join(t2, ", ") + ")"
+			out = append(out, c09prog{
+				label: callA + " next to " + callB + " with (" + strings.Join(ts, ", ") + ") and their twins", class: "twin-named-types/" + argClass(ts), plugin: pl.name, call: pl.prefix, types: ts,
+				files: pkgFiles{"a.go": c09Prelude + "func use() {\n\t" + callA + "\n\t" + callB + "\n}\n"},
+			})
+		}
+	}
 	// 2. an unsupported constituent at every position of small type shapes x plugins
 	unsup := []struct {
 		name, typ  string
@@ -162,6 +207,9 @@ func c09Programs(tier string) []c09prog {
 		// anonymous structs: supported by some plugins, refused by others
 		{"anon-struct-empty", "struct{}", true}, {"anon-struct-one-field", "struct{ X int }", true}, {"anon-struct-two-fields", "struct {\n\tX int\n\tY string\n}", true},
 		{"anon-struct-with-slice", "struct{ S []int }", false},
+		// nothing but blank fields: comparable padding, and a blank field that makes the struct incomparable
+		{"anon-struct-blank-only", "struct{ _ int32 }", true}, {"anon-struct-blank-slice-only", "struct{ _ []int }", false},
+		{"anon-struct-blank-and-slice", "struct {\n\t_ int\n\tS []int\n}", false},
 	}
 	type shape struct {
 		pos  string
@@ -206,6 +254,66 @@ func c09Programs(tier string) []c09prog {
 					label: fmt.Sprintf("%s(%s) with %s at %s of %s", tp.prefix, tp.args, u.typ, sh.pos, T), class: fmt.Sprintf("unsupported=%s@%s", u.name, sh.pos),
 					plugin: tp.plugin, call: tp.prefix, types: []string{T, u.typ, u.name}, files: pkgFiles{"a.go": src},
 				})
+			}
+		}
+	}
+	// 2b. component types with a method named like the ones the plugins look for (Equal, Compare,
+	// Hash, DeepCopy) but of a shape the plugin cannot use: the type is then handled like any
+	// other - field-wise when it is supported, a diagnostic when it holds a chan
+	{
+		type meth struct{ plugin, prefix, args, name, res string }
+		meths := []meth{
+			{"equal", "deriveEqual", "x, y", "Equal", "bool"}, {"compare", "deriveCompare", "x, y", "Compare", "int"},
+			{"hash", "deriveHash", "x", "Hash", "uint64"}, {"deepcopy", "deriveDeepCopy", "x, y", "DeepCopy", ""}, {"clone", "deriveClone", "x", "DeepCopy", ""},
+			{"unique", "deriveUnique", "xs", "Equal", "bool"}, {"sort", "deriveSort", "xs", "Compare", "int"},
+		}
+		zero := map[string]string{"bool": "false", "int": "0", "uint64": "0"}
+		for _, m := range meths {
+			ret1 := func(extra string) (string, string) { // result list, return statement
+				switch {
+				case m.res == "" && extra == "":
+					return "", ""
+				case m.res == "":
+					return " " + extra, " return nil "
+				case extra == "":
+					return " " + m.res, " return " + zero[m.res] + " "
+				}
+				return " (" + m.res + ", " + extra + ")", " return " + zero[m.res] + ", nil "
+			}
+			r, rs := ret1("")
+			r2, rs2 := ret1("error")
+			shapes := []struct{ name, decl string }{
+				{"no-parameter", "func (t T) " + m.name + "()" + r + " {" + rs + "}"},
+				{"no-result", "func (t T) " + m.name + "(u T) {}"},
+				{"extra-error-result", "func (t T) " + m.name + "(u T)" + r2 + " {" + rs2 + "}"},
+				{"two-parameters", "func (t T) " + m.name + "(u, v T)" + r + " {" + rs + "}"},
+				{"parameter-of-another-type", "func (t T) " + m.name + "(u string)" + r + " {" + rs + "}"},
+				{"variadic-parameter", "func (t T) " + m.name + "(u ...T)" + r + " {" + rs + "}"},
+				{"pointer-receiver-interface-parameter", "func (t *T) " + m.name + "(u interface{})" + r + " {" + rs + "}"},
+				{"field-not-method", ""},
+			}
+			for _, sh := range shapes {
+				for _, body := range []struct{ name, fields string }{{"supported", "\tA int\n\tL []int\n"}, {"holds-chan", "\tA int\n\tC chan int\n"}} {
+					T := "type T struct {\n" + body.fields + "}\n\n" + sh.decl + "\n\n"
+					if sh.name == "field-not-method" {
+						T = "type T struct {\n" + body.fields + "\t" + m.name + " func(T) bool\n}\n\n"
+						if body.name == "holds-chan" {
+							continue
+						}
+					}
+					src := "package m\n\n" + T + "type S struct {\n\tF T\n\tP *T\n\tL []T\n\tM map[string]T\n}\n\nvar (\n\tx, y *S\n\txs []*S\n)\n\nfunc use() {\n\t" + m.prefix + "(" + m.args + ")\n}\n"
+					pr := c09prog{
+						label: fmt.Sprintf("%s(%s) on a struct whose component type declares %s: %s", m.prefix, m.args, sh.name, strings.TrimSpace(sh.decl)), class: "user-method-of-unusable-shape=" + m.name + "/" + sh.name + "/" + body.name,
+						plugin: m.plugin, call: m.prefix, types: []string{"T", "*S", "chan int"}, files: pkgFiles{"a.go": src},
+					}
+					if body.name == "holds-chan" && sh.name != "pointer-receiver-interface-parameter" {
+						pr.mustFail = true
+					}
+					if sh.name == "field-not-method" {
+						pr.mustFail = true // a func-typed field is unsupported by every one of these plugins
+					}
+					out = append(out, pr)
+				}
 			}
 		}
 	}
